@@ -615,8 +615,17 @@ class Tr:
                 return '(vany isnan %s)' % a, 'B'
             if ta == 'mat':
                 return '(existsb (vany isnan) %s)' % a, 'B'
+        if name == 'where' and len(args) == 3 and isinstance(args[0], ast.Call) and ast.unparse(args[0].func) == 'np.isnan' \
+                and ast.unparse(args[0].args[0]) == ast.unparse(args[2]):
+            # np.where(np.isnan(v), c, v): replace NaN entries by the constant c
+            a, _ = self.e(args[2], want='vec')
+            c, _ = self.e(args[1], want='T')
+            return '(vmap (fun y_ => if isnan y_ then %s else y_) %s)' % (c, a), 'vec'
         if name == 'isnan' and len(args) == 1:
-            a, _ = self.e(args[0], want='T')
+            a, ta = self.e(args[0])
+            if ta == 'vec':
+                return '(vmap_b isnan %s)' % a, 'bvec'
+            a, _ = self.coerce(a, ta, 'T', n)
             return '(isnan %s)' % a, 'B'
         fail(n, 'numpy function %s' % name)
 
